@@ -348,6 +348,90 @@ def _float_ops(s: Sym) -> List[Tuple[Sym, Sym]]:
     return out
 
 
+def _q1b_inputs():
+    import datetime as _dt
+    utc = _dt.timezone.utc
+    walls = [(1970, 1, 1, 0, 0, 0, 0), (1970, 1, 1, 0, 0, 0, 1), (1969, 12, 31, 23, 59, 59, 999999), (1969, 12, 31, 23, 59, 59, 500000), (2023, 10, 11, 9, 41, 12, 123456),
+             (1, 1, 2, 0, 0, 0, 0), (9999, 12, 30, 23, 59, 59, 999999), (2000, 2, 29, 12, 0, 0, 250000)]
+    zones = [utc, _dt.timezone(_dt.timedelta(hours=2)), _dt.timezone(_dt.timedelta(hours=-5)), _dt.timezone(_dt.timedelta(hours=-1)), _dt.timezone(_dt.timedelta(hours=5, minutes=30)),
+             _dt.timezone(_dt.timedelta(hours=-9, minutes=-30))]
+    return [_dt.datetime(*w, tzinfo=z) for w in walls for z in zones]
+
+
+def rule_Q1b(ctx, rule: str = "Q1") -> None:
+    """_Timestamp.from_datetime evaluated at distinguished aware datetimes (around the epoch, before it with a fraction, the ends
+    of the range; UTC and fixed offsets on both sides of Greenwich): the path each value takes is selected with the analyser's
+    evaluator and (seconds, nanos) compared with the instant's exact distance from the epoch"""
+    import datetime as _dt
+    from .. import concrete
+    from ..sym import from_ast as _from_ast
+    mod = ctx.repo.mod(M_INIT)
+    fn = mod.func("_Timestamp.from_datetime")
+    params = [a.arg for a in fn.args.args if a.arg not in ("self", "cls")]
+    name = "from_datetime:distinguished-instants"
+    if len(params) != 1:
+        ctx.inconclusive(rule, name, f"parameters {params}", mod.loc(fn))
+        return
+    inl = {}
+    for c in ast.walk(fn):
+        if isinstance(c, ast.Call) and isinstance(c.func, ast.Name) and c.func.id.startswith("_") and mod.has(c.func.id):
+            h = mod.func(c.func.id)
+            if len(h.body) <= 12 and not any(isinstance(n, (ast.For, ast.While)) for n in ast.walk(h)):
+                inl[c.func.id] = (mod, h)
+    paths = Interp(mod, inline=inl, fork_ifexp=True).run(fn)
+    ctx.count(len(paths))
+    epoch = _dt.datetime(1970, 1, 1, tzinfo=_dt.timezone.utc)
+    base_env: Dict[Any, Any] = {"DATETIME_ZERO": epoch, "_EPOCH": epoch, "_1_microsecond": _dt.timedelta(microseconds=1)}
+    # module-level constants of the time kind that the function reads: evaluated from their defining expression
+    for st in mod.tree.body:
+        tg = st.targets[0] if isinstance(st, ast.Assign) and len(st.targets) == 1 else (st.target if isinstance(st, ast.AnnAssign) and st.value is not None else None)
+        if isinstance(tg, ast.Name) and tg.id not in base_env and any(isinstance(x, ast.Name) and x.id in ("timedelta", "datetime", "timezone") for x in ast.walk(st.value)):
+            try:
+                base_env[tg.id] = concrete.ev(_from_ast(st.value), dict(base_env))
+            except concrete.Unknown:
+                pass
+    bad = unknown = None
+    n = 0
+    for dt in _q1b_inputs():
+        env = dict(base_env)
+        env[params[0]] = dt
+        sel, why = [], None
+        for p in paths:
+            try:
+                if all(bool(concrete.ev(k, env)) == bool(v) for k, v in p.valuation.items() if k[0] != "raises"):
+                    sel.append(p)
+            except concrete.Unknown as e:
+                why = str(e)
+                break
+        if why is not None or len(sel) != 1:
+            unknown = unknown or f"{dt.isoformat()}: {why or str(len(sel)) + ' paths selected'}"
+            continue
+        p = sel[0]
+        args = _ctor_args(p.value) if p.outcome == "return" and p.value is not None else None
+        if args is None:
+            unknown = unknown or f"{dt.isoformat()}: result {show(p.value)[:60] if p.value else p.outcome} is not cls(seconds, nanos)"
+            continue
+        try:
+            got = (concrete.ev(args[0], env), concrete.ev(args[1], env))
+        except concrete.Unknown as e:
+            unknown = unknown or f"{dt.isoformat()}: {e}"
+            continue
+        n += 1
+        total_us = (dt - epoch) // _dt.timedelta(microseconds=1)
+        sec, us = divmod(total_us, 10 ** 6)
+        if got != (sec, us * 1000):
+            bad = bad or (dt, got, (sec, us * 1000))
+    if bad:
+        dt, got, want = bad
+        ctx.refuted(rule, name, f"{dt.isoformat()}->{got}", mod.loc(fn), f"the instant {dt.isoformat()} is encoded as (seconds, nanos) = {got}; it lies {want[0]} s and {want[1]} ns after the epoch: the UTC offset of an "
+                    "aware datetime has to be applied as a whole (a negative offset is normalised to days=-1 plus a positive rest; replacing tzinfo relabels the wall clock instead of converting it)",
+                    f"M(ts={dt!r})")
+    elif unknown:
+        ctx.inconclusive(rule, name, unknown[:300], mod.loc(fn))
+    else:
+        ctx.proved(rule, name, mod.loc(fn), f"{n} aware datetimes over {len(paths)} paths")
+
+
 def rule_Q2(ctx) -> None:
     mod = ctx.repo.mod(M_INIT)
     for q in ("_Timestamp.from_datetime", "_Duration.from_timedelta", "_Timestamp.to_datetime", "_Duration.to_timedelta",
@@ -936,7 +1020,7 @@ def rule_Q8(ctx, rule: str = "Q8") -> None:
 
 
 def run(ctx) -> None:
-    for name, fn in (("Q8", rule_Q8), ("Q7", rule_Q7), ("Q6", rule_Q6), ("Q1", rule_Q1), ("Q2", rule_Q2), ("Q3", rule_Q3), ("Q4", rule_Q4), ("Q5", rule_Q5), ("K3", jsonrules.rule_K3), ("K3b", jsonrules.rule_K3b)):
+    for name, fn in (("Q8", rule_Q8), ("Q7", rule_Q7), ("Q6", rule_Q6), ("Q1", rule_Q1), ("Q1b", rule_Q1b), ("Q2", rule_Q2), ("Q3", rule_Q3), ("Q4", rule_Q4), ("Q5", rule_Q5), ("K3", jsonrules.rule_K3), ("K3b", jsonrules.rule_K3b)):
         ctx.rules_run.append(name)
         fn(ctx)
     ctx.assume("declared range table: timedelta.days in +-999999999, .seconds in [0, 86400), .microseconds/.microsecond in [0, 10**6), nanos in +-(10**9 - 1)")
